@@ -34,7 +34,10 @@ class Ctx:
 
     def __init__(self, timeout_ms=60000, name='ctx'):
         self.name = name
-        self.timeout_ms = timeout_ms
+        # (a floor for all per-query caps, so that a loaded machine does not
+        # turn a 10 s query into an inconclusive run)
+        self.timeout_ms = max(int(timeout_ms), int(os.environ.get(
+            'SYMX_MIN_TIMEOUT_MS', '0')))
         self.side = []          # global side conditions (assumptions)
         self.side_notes = []    # human readable list of assumptions
         self.recips = {}        # ast-id of monic denominator -> (mon, var)
